@@ -70,7 +70,7 @@ BOUNDS = (
     "nested dataclass,defaults,Transient} to nesting depth %d (quick: fixed selection of 35; thorough: all, %s); "
     "instances: unbounded ints, any bool, any str of len<=%d, any enum member (3), container lengths 0..2, "
     "None in every Optional position; map keys: a top-level map of scalars/enums has two independent symbolic "
-    "keys, any other map has the constant keys 'k0','k1'; depth-3 shapes: the outermost container "
+    "keys, any other map has two constant distinct keys of its key type ('k0','k1' / 0,1 / RED,GREEN); depth-3 shapes: the outermost container "
     "holds at most one element" % (_DEPTH, "int keys only over int-leaved values", _L)
 )
 OUTSIDE = (
@@ -302,10 +302,13 @@ _SCALARISH = ("int", "bool", "str", "enum")
 
 
 def _free_keys(e: tuple, level: int) -> bool:
-    """Independent symbolic keys (top-level map of scalars/enums, or non-str keys); any other map — nested, or
-    holding containers/dataclasses — has the constant keys "k0", "k1" (key content is opaque to the conversion
-    layer; symbolic key content is claimed by the depth-1 map shapes)."""
-    return e[1] != ("str",) or (level == 0 and e[2][0] in _SCALARISH)
+    """Independent symbolic keys for a top-level map of scalars/enums (any key type); any other map — nested,
+    or holding containers/dataclasses — has two constant distinct keys of its key type (key *content* is opaque
+    to the conversion layer, key *type* is not; symbolic key content is claimed by the depth-1 map shapes)."""
+    return level == 0 and e[2][0] in _SCALARISH
+
+
+_CONST_KEYS = {"str": ("k0", "k1"), "int": (0, 1), "enum": (Color.RED, Color.GREEN)}
 
 
 def _need(e: tuple, acc: dict, level: int = 0) -> None:
@@ -375,11 +378,11 @@ def _build(e: tuple, p: _Pool, level: int = -1, deep: bool = False) -> Any:
         if n == 0:
             return dict([])
         free = _free_keys(e, level)
-        k0 = _build(e[1], p, level + 1, deep) if free else "k0"
+        k0 = _build(e[1], p, level + 1, deep) if free else _CONST_KEYS[e[1][0]][0]
         v0 = _build(e[2], p, level + 1, deep)
         if n == 1 or one_only:
             return dict([(k0, v0)])
-        k1 = _build(e[1], p, level + 1, deep) if free else "k1"
+        k1 = _build(e[1], p, level + 1, deep) if free else _CONST_KEYS[e[1][0]][1]
         v1 = _build(e[2], p, level + 1, deep)
         return dict([(k0, v0), (k1, v1)])
     if k == "dc":
